@@ -35,6 +35,8 @@ pub struct Profile {
     pub text_cols: bool,
     /// text values of several kilobytes (log spills over blocks, rows need overflow pages)
     pub big_text: bool,
+    /// every text value is padded to exactly this many bytes (uniform cell sizes, several pages of data)
+    pub pad_text: usize,
     /// a burst of this many autocommit reads somewhere in the history: each logs BEGIN/COMMIT/END,
     /// so the log grows past its first 40 KiB block without growing the tables
     pub read_burst: u32,
@@ -73,6 +75,7 @@ impl Profile {
             updates: true,
             text_cols: true,
             big_text: false,
+            pad_text: 0,
             read_burst: 0,
             ddl_rich: false,
             w_chaos: 0,
@@ -202,7 +205,7 @@ impl Gen {
             cols.push(ColDef { name: "k".into(), ty: Ty::Int, not_null: self.p.constraints && self.rng.chance(50), default: None });
         }
         cols.push(ColDef { name: "v".into(), ty: Ty::Int, not_null: false, default: None });
-        if self.p.text_cols && self.rng.chance(50) {
+        if self.p.text_cols && (self.p.pad_text > 0 || self.rng.chance(50)) {
             cols.push(ColDef { name: "s".into(), ty: Ty::Text, not_null: false, default: None });
         }
         let mut pk = None;
@@ -241,6 +244,20 @@ impl Gen {
     }
 
     fn gen_row(&mut self, ti: usize) -> Vec<Val> {
+        let r = self.gen_row_inner(ti);
+        if self.p.pad_text > 0 {
+            // uniform cell sizes: no NULLs at all
+            let t = self.model.tables[ti].clone();
+            return r
+                .into_iter()
+                .zip(t.cols.iter())
+                .map(|(v, c)| if v.is_null() { if c.ty == Ty::Text { Val::T(format!("s{:05}{}", self.fresh_val(), "x".repeat(self.p.pad_text))) } else { Val::I(self.fresh_val()) } } else { v })
+                .collect();
+        }
+        r
+    }
+
+    fn gen_row_inner(&mut self, ti: usize) -> Vec<Val> {
         let t = self.model.tables[ti].clone();
         let id = {
             let e = self.next_id.entry(t.name.clone()).or_insert(0);
@@ -279,6 +296,8 @@ impl Gen {
                         let n = self.fresh_val();
                         let len = self.rng.range(1500, 7000) as usize;
                         Val::T(format!("s{:05}{}", n, "x".repeat(len)))
+                    } else if self.p.pad_text > 0 {
+                        Val::T(format!("s{:05}{}", self.fresh_val(), "x".repeat(self.p.pad_text)))
                     } else {
                         Val::T(format!("s{:05}", self.fresh_val()))
                     }
@@ -388,7 +407,7 @@ impl Gen {
                 if room == 0 {
                     continue;
                 }
-                let n = (if self.rng.chance(30) { self.rng.range(2, 3) } else { 1 }).min(room as u64);
+                let n = (if self.p.pad_text > 0 { self.rng.range(2, 6) } else if self.rng.chance(30) { self.rng.range(2, 3) } else { 1 }).min(room as u64);
                 let rows: Vec<Vec<Val>> = (0..n).map(|_| self.gen_row(ti)).collect();
                 if self.p.has("unique_key_reuse_while_session_open") && (!self.sess.is_empty() || self.in_batch) && rows.iter().any(|r| self.key_used_before(ti, r)) {
                     continue;
@@ -438,11 +457,12 @@ impl Gen {
                 }
                 let c = (*self.rng.pick(&cands)).clone();
                 let e = match c.ty {
+                    Ty::Text if self.p.pad_text > 0 => Expr::Lit(Val::T(format!("s{:05}{}", self.fresh_val(), "x".repeat(self.p.pad_text)))),
                     Ty::Text => Expr::Lit(Val::T(format!("s{:05}", self.fresh_val()))),
                     _ => {
                         if self.rng.chance(30) && !(self.p.has("arithmetic_update_on_indexed_table") && !t.uniques.is_empty()) {
                             Expr::ColPlus(c.name.clone(), 1000)
-                        } else if !c.not_null && self.rng.chance(10) {
+                        } else if !c.not_null && self.p.pad_text == 0 && self.rng.chance(10) {
                             Expr::Lit(Val::Null)
                         } else {
                             Expr::Lit(Val::I(self.fresh_val()))
